@@ -159,8 +159,33 @@ def run(ctx):
     cap_reg(ctx, sm)
     borrow(ctx)
     enum_presentation_rule(ctx, dm)
+    decimal_from_f64_rule(ctx)
     from .c03 import newtype_rule
     newtype_rule(ctx)
+
+
+def decimal_from_f64_rule(ctx):
+    """an f64 presented for a decimal is converted through its shortest decimal representation (the digits `{}` prints,
+    which parse back to the same f64), not through a binary expansion: `from_f64(4194304.23)` is 4194304.230000001 - a
+    number the caller never had, which a big-decimal then carries and a decimal(_, 2) has to refuse or round"""
+    f = ctx.f
+    b = None
+    for x in f.body_list:
+        if x.name == 'serialize_f64' and x.j['kind'] != 'closure' and 'DatumSerializer' in (x.j.get('self_ty') or ''):
+            b = x
+    if b is None:
+        ctx.ob('DECF64', 'anchor', False, None, 'DatumSerializer::serialize_f64 not found')
+        return
+    ctx.touched(b)
+    fam = [b] + f.closures_of(b)
+    # helpers of the serializer module that the arms may go through
+    helpers = [x for x in f.body_list if x.id.startswith('ser::serializer::') and any(cname(t) == x.id or (t.get('resolved') or '') == x.id for y in fam for bb, t in y.calls())]
+    inexact = [fn_label(x) for x in fam + helpers for bb, t in x.calls() if not x.is_cleanup(bb) and (t.get('callee') or '').endswith(('FromPrimitive::from_f64', 'Decimal::from_f64_retain', 'TryFrom::try_from')) and
+               ('f64' in ' '.join(t.get('arg_tys', [])) )]
+    parsed = any((t.get('callee') or '').endswith(('str::<impl str>::parse', 'FromStr::from_str')) and 'Decimal' in ' '.join(t.get('substs', []) + [x.local_ty((t.get('dest') or {}).get('l', 0)) or ''])
+                 for x in fam + helpers for bb, t in x.calls() if not x.is_cleanup(bb))
+    ctx.ob('DECF64', 'shortest-representation', not inexact and parsed, short_loc(b.span),
+           'f64 -> decimal through a binary expansion (from_f64 / try_from): %s; through the printed shortest representation (parse): %s' % (sorted(set(inexact)) or 'no', parsed))
 
 
 def enum_presentation_rule(ctx, dm=None):
@@ -304,8 +329,8 @@ def name_pair(ctx):
 # (kind, key) registered without a serializer capability: reviewed, one reason each
 REG_WITHOUT_CAP = {
     ('Double', 'Float4'): 'registered "just for better error" (source comment); serialize_f32 x Double is an explicit Err',
-    ('BigDecimal', 'Integer'): 'serialize_integer has no BigDecimal arm: yields Err, never wrong bytes',
-    ('BigDecimal', 'Integer4'): 'same', ('BigDecimal', 'Integer8'): 'same',
+    # (BigDecimal x Integer* used to be listed here as "yields Err, never wrong bytes" - but a branch that the lookup selects
+    # for an integer and that then refuses it is a round-trip failure: Some(5_i64) under ["null", big-decimal] (F34))
 }
 
 
